@@ -338,10 +338,37 @@ def check_legend(rows: Optional[List[List[Any]]], res: Dict[str, Any], case: Dic
             problems.append(f"{what}: Legend {label} shows {v!r}, the run used {d}")
 
 
+def label_problem(rows: Sequence[Dict[str, Any]]) -> Optional[str]:
+    """'k/n' labels recomputed from the fraction list itself (only meaningful when the list holds every fraction up to the to-date,
+    i.e. without a from-date): k = how many fractions of the same event / lot so far, n = how many in total."""
+    ev_total: Dict[Any, int] = {}
+    lot_total: Dict[Any, int] = {}
+    for r in rows:
+        ev_total[r["event"]] = ev_total.get(r["event"], 0) + 1
+        if r["lot"] is not None:
+            lot_total[r["lot"]] = lot_total.get(r["lot"], 0) + 1
+    ev_seen: Dict[Any, int] = {}
+    lot_seen: Dict[Any, int] = {}
+    for r in rows:
+        ev_seen[r["event"]] = ev_seen.get(r["event"], 0) + 1
+        if (r["event_k"], r["event_n"]) != (ev_seen[r["event"]], ev_total[r["event"]]):
+            return f"fraction (event row {r['event']}, lot row {r['lot']}) labelled {r['event_k']}/{r['event_n']} of its event; it is {ev_seen[r['event']]} of {ev_total[r['event']]}"
+        if r["lot"] is not None:
+            lot_seen[r["lot"]] = lot_seen.get(r["lot"], 0) + 1
+            if (r["lot_k"], r["lot_n"]) != (lot_seen[r["lot"]], lot_total[r["lot"]]):
+                return f"fraction (event row {r['event']}, lot row {r['lot']}) labelled {r['lot_k']}/{r['lot_n']} of its lot; it is {lot_seen[r['lot']]} of {lot_total[r['lot']]}"
+    return None
+
+
 def check_c13(case: Dict[str, Any], res: Dict[str, Any]) -> List[str]:
     problems: List[str] = []
     if report_file(res) is None:
         return [f"no rp2_full_report.ods was written (files: {list(res['files'])})"]
+    if not case.get("from"):
+        for asset in sorted(res["dumps"]):
+            lp = label_problem(res["dumps"][asset]["detail"])
+            if lp:
+                problems.append(f"{sheet_name(res, '{} Tax', asset)} / Gain-Loss Detail fraction labels: {lp}")
     for asset in sorted(res["dumps"]):
         check_in_out(res, asset, problems, case["assets"].get(asset))
         check_tax_sheet(res, asset, problems)
